@@ -153,7 +153,7 @@ void
 orc_sse_restore_mxcsr (OrcCompiler *compiler)
 {
   orc_x86_emit_cpuinsn_load_memoffset (compiler, ORC_X86_ldmxcsr, 4, 0,
-      (int)ORC_STRUCT_OFFSET(OrcExecutor,params[ORC_VAR_A4]),
+      (int)ORC_STRUCT_OFFSET(OrcExecutor,params[ORC_VAR_C1]),
       compiler->exec_reg, 0);
 }
 
